@@ -40,3 +40,14 @@ pub fn diverging_reservation<T>(n: usize) -> alloc::vec::Vec<T> {
     }
     v
 }
+
+/// Positive fixture for C16.F: the manual release is guarded against zero-sized ELEMENTS only, so for N = 0 a zero-size layout (and a block that was
+/// never requested) reaches the allocator - must be reported on every run.
+pub unsafe fn unbox_by_hand<T, N: ArrayLength>(value: Box<GenericArray<T, N>>) -> GenericArray<T, N> {
+    let block = Box::into_raw(value);
+    let array = block.read();
+    if size_of::<T>() != 0 {
+        alloc::alloc::dealloc(block.cast(), Layout::new::<GenericArray<T, N>>());
+    }
+    array
+}
